@@ -1,4 +1,66 @@
-From Verif Require Import Base.Prelude Gen.Constants Model.Framing.
-Example placeholder : frame [1;2;3] = Some [0;3;1;2;3].
-Proof. reflexivity. Qed.
-Print Assumptions placeholder.
+(** C16 — stream framing is exact in both directions.
+    Only statements, each closed by [exact] of a lemma from Proofs/Framing.v. *)
+From Verif Require Import Base.Prelude Gen.Constants Model.Framing Proofs.Framing.
+From Coq Require Import Permutation.
+Open Scope N_scope.
+
+(** A writer produces exactly "two byte big-endian length ++ message", and
+    refuses exactly the messages longer than 65535 bytes. *)
+Theorem c16_writer_exact m f : frame m = Some f -> f = enc_len (len m) ++ m /\ len m <= 65535.
+Proof. exact (frame_some m f). Qed.
+Print Assumptions c16_writer_exact.
+
+Theorem c16_oversize_refused m : frame m = None <-> 65535 < len m.
+Proof. exact (frame_none m). Qed.
+Print Assumptions c16_oversize_refused.
+
+(** Any message of 13..65535 bytes framed by the writer comes back
+    byte-for-byte through the reader, however the stream is cut into reads
+    (any stream [s] that delivers the frame followed by [rest]). *)
+Theorem c16_roundtrip_any_reads s m f rest :
+  13 <= len m -> frame m = Some f -> flat s = f ++ rest ->
+  exists s', read_frame s = (Ok m, s') /\ flat s' = rest.
+Proof. exact (read_frame_roundtrip s m f rest). Qed.
+Print Assumptions c16_roundtrip_any_reads.
+
+Theorem c16_roundtrip_any_chunking fuel sizes m f rest :
+  13 <= len m -> frame m = Some f ->
+  exists s', read_frame (chunk_by fuel sizes sizes (f ++ rest)) = (Ok m, s') /\ flat s' = rest.
+Proof. exact (roundtrip_any_chunking fuel sizes m f rest). Qed.
+Print Assumptions c16_roundtrip_any_chunking.
+
+(** The reader never returns anything but the announced bytes, and never fewer than 13. *)
+Theorem c16_reader_sound s m s' :
+  read_frame s = (Ok m, s') ->
+  exists h, length h = 2%nat /\ flat s = h ++ m ++ flat s' /\ len m = dec_len h /\ 13 <= len m.
+Proof. exact (read_frame_sound s m s'). Qed.
+Print Assumptions c16_reader_sound.
+
+(** A short or failing stream is an error, never a truncated or padded message. *)
+Theorem c16_truncated_is_error s m f k :
+  13 <= len m -> frame m = Some f -> (k < length f)%nat -> nofail s = true -> flat s = firstn k f ->
+  exists e s', read_frame s = (Er e, s') /\ (e = EEOF \/ e = EUnexpectedEOF).
+Proof. exact (read_frame_truncated s m f k). Qed.
+Print Assumptions c16_truncated_is_error.
+
+Theorem c16_small_length_refused s h rest :
+  length h = 2%nat -> dec_len h <= 12 -> flat s = h ++ rest ->
+  exists s', read_frame s = (Er ETooSmall, s').
+Proof. exact (read_frame_small s h rest). Qed.
+Print Assumptions c16_small_length_refused.
+
+(** Frames written whole, in any order, decode to the same messages in that order. *)
+Theorem c16_whole_frames_any_order ms ms' s :
+  Forall valid_msg ms -> Permutation ms ms' -> nofail s = true ->
+  flat s = concat (map frame_bytes ms') ->
+  read_frames (S (length ms')) s = (ms', EEOF).
+Proof. exact (whole_frames_any_order ms ms' s). Qed.
+Print Assumptions c16_whole_frames_any_order.
+
+(** Non-vacuity: a 13 byte message, delivered one byte per read followed by
+    three stray bytes, is decoded exactly and the stray bytes remain. *)
+Example c16_nonvacuous :
+  let m := gen_bytes 13 5 in
+  exists f, frame m = Some f /\
+  fst (read_frame (chunk_by 100 [1%nat] [1%nat] (f ++ [1;2;3]))) = Ok m.
+Proof. eexists. split; [reflexivity|]. vm_compute. reflexivity. Qed.
